@@ -4,6 +4,9 @@ package main
 // and the SMT-LIB 2 printer.
 
 import (
+	"os"
+	"crypto/sha1"
+	"io"
 	"fmt"
 	"math/big"
 	"sort"
@@ -76,6 +79,9 @@ type Term struct {
 	Name  string   // var / uninterpreted function name
 	C     *big.Int // constant value (Int or BV)
 	Bound []*Term  // forall/exists binders (vars)
+
+	hkey  string // structural key (lazily computed by the script printer; terms are immutable)
+	hsize int    // node count, saturating
 }
 
 // ---------------------------------------------------------------- constructors
@@ -561,6 +567,7 @@ func rebuild(t *Term, args []*Term) *Term {
 	}
 	n := *t
 	n.Args = args
+	n.hkey, n.hsize = "", 0 // (the cached structural key belongs to the original)
 	return &n
 }
 
@@ -586,7 +593,136 @@ func smtName(n string) string {
 	return "|" + strings.ReplaceAll(n, "|", "!") + "|"
 }
 
-func (t *Term) write(sb *strings.Builder) {
+// cseCtx: common-subexpression naming for one script.  Closed subterms (no quantifier-bound variable inside) that
+// occur more than once are printed once as a constant cse!N with the defining equation (= cse!N body) and referred to by name; terms are
+// DAGs in memory and printing them as trees made scripts of several megabytes out of a few thousand nodes.
+type cseCtx struct {
+	key    map[*Term]string // structural key per node (memoised by pointer)
+	count  map[string]int   // occurrences of a key as a child or root
+	size   map[string]int   // node count (saturating)
+	open   map[string]bool  // mentions a quantifier-bound variable
+	name   map[string]string
+	bound  map[string]bool
+	defs   []string
+	nextID int
+}
+
+func (c *cseCtx) keyOf(t *Term) string {
+	if k, ok := c.key[t]; ok {
+		return k
+	}
+	open := t.Op == "var" && c.bound[t.Name]
+	for _, a := range t.Args {
+		if c.open[c.keyOf(a)] {
+			open = true
+		}
+	}
+	if len(t.Bound) > 0 {
+		open = true // quantified formulas are never hoisted
+	}
+	k := structKey(t)
+	c.key[t] = k
+	if _, seen := c.size[k]; !seen {
+		c.size[k] = t.hsize
+		c.open[k] = open
+	}
+	return k
+}
+
+// structKey: a collision-resistant structural key of the term, cached in the node.
+func structKey(t *Term) string {
+	if t.hkey != "" {
+		return t.hkey
+	}
+	h := sha1.New()
+	io.WriteString(h, t.Op)
+	h.Write([]byte{0})
+	io.WriteString(h, t.Name)
+	h.Write([]byte{0})
+	if t.C != nil {
+		io.WriteString(h, t.C.String())
+	}
+	h.Write([]byte{0})
+	if t.S != nil {
+		io.WriteString(h, t.S.String())
+	}
+	sz := 1
+	for _, b := range t.Bound {
+		h.Write([]byte{1})
+		io.WriteString(h, b.Name)
+		io.WriteString(h, b.S.String())
+	}
+	for _, a := range t.Args {
+		h.Write([]byte{2})
+		io.WriteString(h, structKey(a))
+		sz += a.hsize
+	}
+	if sz > 1<<20 {
+		sz = 1 << 20
+	}
+	t.hsize = sz
+	t.hkey = string(h.Sum(nil))
+	return t.hkey
+}
+
+// countRefs counts, per distinct subterm, how often it is referred to from distinct parents (or as a root).
+func (c *cseCtx) countRefs(t *Term, visited map[string]bool) {
+	k := c.keyOf(t)
+	c.count[k]++
+	if visited[k] {
+		return
+	}
+	visited[k] = true
+	for _, a := range t.Args {
+		c.countRefs(a, visited)
+	}
+}
+
+var noCSE = os.Getenv("GOVC_NOCSE") != ""
+
+// cseOver: scripts longer than this as a tree are printed with shared subterms named
+const cseOver = 3 << 20
+
+func (c *cseCtx) shared(t *Term) (string, bool) {
+	k := c.key[t]
+	if noCSE || c.count[k] < 2 || c.open[k] || c.size[k] < 4 || t.Op == "var" || t.Op == "const" {
+		return k, false
+	}
+	return k, true
+}
+
+// ref writes t, naming it first when it is shared.
+func (c *cseCtx) ref(t *Term, sb *strings.Builder) {
+	k, sh := c.shared(t)
+	if !sh {
+		t.writeC(sb, c)
+		return
+	}
+	if n, ok := c.name[k]; ok {
+		sb.WriteString(n)
+		return
+	}
+	var body strings.Builder
+	t.writeC(&body, c)
+	c.nextID++
+	n := fmt.Sprintf("cse!%d", c.nextID)
+	c.name[k] = n
+	// a named constant with a defining equation (not define-fun: the solvers expand those back into the tree,
+	// and z3 was then an order of magnitude slower on the quantified queries than with the equations)
+	c.defs = append(c.defs, fmt.Sprintf("(declare-fun %s () %s)\n(assert (= %s %s))\n", n, t.S.String(), n, body.String()))
+	sb.WriteString(n)
+}
+
+func (t *Term) write(sb *strings.Builder) { t.writeC(sb, nil) }
+
+func (t *Term) writeC(sb *strings.Builder, c *cseCtx) {
+	w := func(a *Term) {
+		if c != nil {
+			c.ref(a, sb)
+		} else {
+			a.writeC(sb, nil)
+		}
+	}
 	switch t.Op {
 	case "var":
 		sb.WriteString(smtName(t.Name))
@@ -608,7 +744,7 @@ func (t *Term) write(sb *strings.Builder) {
 		sb.WriteString("(" + smtName(t.Name))
 		for _, a := range t.Args {
 			sb.WriteByte(' ')
-			a.write(sb)
+			w(a)
 		}
 		sb.WriteByte(')')
 	case "forall", "exists":
@@ -617,26 +753,26 @@ func (t *Term) write(sb *strings.Builder) {
 			fmt.Fprintf(sb, "(%s %s)", smtName(b.Name), b.S.String())
 		}
 		sb.WriteString(") ")
-		t.Args[0].write(sb)
+		w(t.Args[0])
 		sb.WriteByte(')')
 	case "extract":
 		hi, lo := t.C.Int64()>>16, t.C.Int64()&0xffff
 		fmt.Fprintf(sb, "((_ extract %d %d) ", hi, lo)
-		t.Args[0].write(sb)
+		w(t.Args[0])
 		sb.WriteByte(')')
 	case "constarr":
 		sb.WriteString("((as const " + t.S.String() + ") ")
-		t.Args[0].write(sb)
+		w(t.Args[0])
 		sb.WriteByte(')')
 	case "zero_extend", "sign_extend":
 		fmt.Fprintf(sb, "((_ %s %d) ", t.Op, t.C.Int64())
-		t.Args[0].write(sb)
+		w(t.Args[0])
 		sb.WriteByte(')')
 	default:
 		sb.WriteString("(" + t.Op)
 		for _, a := range t.Args {
 			sb.WriteByte(' ')
-			a.write(sb)
+			w(a)
 		}
 		sb.WriteByte(')')
 	}
@@ -711,28 +847,102 @@ func Script(hyps []*Term, goal *Term, getModel bool, modelTerms []*Term) string 
 		}
 		fmt.Fprintf(&sb, ") %s)\n", f.S.String())
 	}
+	// Scripts are printed as they are unless they are very large: naming shared subterms changes how the solvers
+	// search (a borderline quantified query of C14 that z3 proves in 3 s as a tree timed out with names), so
+	// the sharing pass is a fallback for scripts that would otherwise come near the size cap, not the default.
+	small := true
+	plainFirst := true
+	if noCSE || (small && plainFirst) {
+		mark := sb.Len()
+		for _, h := range hyps {
+			if h.IsTrue() {
+				continue
+			}
+			sb.WriteString("(assert ")
+			h.write(&sb)
+			sb.WriteString(")\n")
+		}
+		if goal != nil {
+			sb.WriteString("(assert (not ")
+			goal.write(&sb)
+			sb.WriteString("))\n")
+		}
+		sb.WriteString("(check-sat)\n")
+		if getModel && len(modelTerms) > 0 {
+			sb.WriteString("(get-value (")
+			for _, m := range modelTerms {
+				m.write(&sb)
+				sb.WriteByte(' ')
+			}
+			sb.WriteString("))\n")
+		}
+		if noCSE || sb.Len() <= cseOver {
+			return sb.String()
+		}
+		// too large as a tree: print again with shared subterms named
+		head := sb.String()[:mark]
+		sb.Reset()
+		sb.WriteString(head)
+	}
+	c := &cseCtx{key: map[*Term]string{}, count: map[string]int{}, size: map[string]int{}, open: map[string]bool{}, name: map[string]string{}, bound: map[string]bool{}}
+	var collectBound func(t *Term, seen map[*Term]bool)
+	collectBound = func(t *Term, seen map[*Term]bool) {
+		if seen[t] {
+			return
+		}
+		seen[t] = true
+		for _, bv := range t.Bound {
+			c.bound[bv.Name] = true
+		}
+		for _, a := range t.Args {
+			collectBound(a, seen)
+		}
+	}
+	seen := map[*Term]bool{}
+	for _, h := range hyps {
+		collectBound(h, seen)
+	}
+	if goal != nil {
+		collectBound(goal, seen)
+	}
+	visited := map[string]bool{}
+	for _, h := range hyps {
+		if !h.IsTrue() {
+			c.countRefs(h, visited)
+		}
+	}
+	if goal != nil {
+		c.countRefs(goal, visited)
+	}
+	var asserts strings.Builder
 	for _, h := range hyps {
 		if h.IsTrue() {
 			continue
 		}
-		sb.WriteString("(assert ")
-		h.write(&sb)
-		sb.WriteString(")\n")
+		asserts.WriteString("(assert ")
+		h.writeC(&asserts, c)
+		asserts.WriteString(")\n")
 	}
 	if goal != nil {
-		sb.WriteString("(assert (not ")
-		goal.write(&sb)
-		sb.WriteString("))\n")
+		asserts.WriteString("(assert (not ")
+		goal.writeC(&asserts, c)
+		asserts.WriteString("))\n")
 	}
-	sb.WriteString("(check-sat)\n")
+	var mv strings.Builder
 	if getModel && len(modelTerms) > 0 {
-		sb.WriteString("(get-value (")
+		mv.WriteString("(get-value (")
 		for _, m := range modelTerms {
-			m.write(&sb)
-			sb.WriteByte(' ')
+			m.writeC(&mv, nil) // (the answer is matched by the term's own text)
+			mv.WriteByte(' ')
 		}
-		sb.WriteString("))\n")
+		mv.WriteString("))\n")
 	}
+	for _, d := range c.defs {
+		sb.WriteString(d)
+	}
+	sb.WriteString(asserts.String())
+	sb.WriteString("(check-sat)\n")
+	sb.WriteString(mv.String())
 	return sb.String()
 }
 
